@@ -36,6 +36,8 @@ HEAVY_CASES = True
 
 
 def COST(desc):
+    if desc["k"] == "gauge-history":
+        return 5
     if desc["k"] == "thermalprop" and desc.get("scheme", "").split(":")[0] in ("cmf-midpoint", "vmf", "mu-vmf"):
         return 100      # the stiff mean-field runs from the maximally entangled state take tens of seconds: start them first
     return 10 if desc["k"] in ("thermalprop", "tree-thermal") else 2
@@ -81,6 +83,13 @@ def cases(tier, seed):
             for form in ("mps", "mpdm"):
                 for sname in S:
                     yield {"k": "imag", "fam": fam, "n": n, "sector": sec, "form": form, "scheme": sname}
+            # histories that leave right-canonical FLAGS on tensors that are not right-canonical (sweep, then sum / operator application)
+            for form in ("mps:sum-after-canonicalise", "mps:apply-after-canonicalise"):
+                for sname in S:
+                    if sname.split(":")[0] in ("ps", "ps2", "pc-taylor", "pc-rk4"):
+                        yield {"k": "imag", "fam": fam, "n": n, "sector": sec, "form": form, "scheme": sname}
+    for sname in ("ps:krylov", "ps2:krylov", "ps:RK45"):
+        yield {"k": "gauge-history", "scheme": sname}
     for space in ("GS", "EX"):
         for sname in ("pc-taylor", "pc-rk4", "ps:krylov", "ps2:krylov", "cmf-midpoint:RK45", "mu-vmf", "vmf"):
             for beta in (0.1, 1.0, 10.0):
@@ -151,6 +160,19 @@ def run_imag(desc, seed):
 
     def init():
         s = ch.random_mps(sec, 8, "c10", cplx=False)
+        if desc["form"].startswith("mps:"):
+            s.canonicalise()
+            if desc["form"].endswith("sum-after-canonicalise"):
+                b = ch.random_mps(sec, 8, "c10b", cplx=False)
+                b.canonicalise()
+                s = s.add(b)
+            else:
+                s = H.apply(s)
+            s.normalize("mps_only")
+            s.coeff = 1
+            s.evolve_config = make_config(spec)
+            s.compress_config = CompressConfig(CompressCriteria.fixed, max_bonddim=64)
+            return s
         if desc["form"] == "mpdm":
             def dm(t):
                 return MpDm.from_mps(ch.random_mps(sec, 8, t))
@@ -475,8 +497,19 @@ def run_tree_thermal(desc, seed):
     return {"nontrivial": True, "outcome": f"tree:{'viol' if viol else 'ok'}", "viol": list(viol.values()), "sample": {"desc": desc, "energy": float(np.real(e)), "gibbs": ref}}
 
 
+def run_gauge_history(desc, seed):
+    """imaginary-time projector splitting on a state whose flags say right-canonical while its tensors are not (see checks/c09_evolve.py)"""
+    from checks.c09_evolve import gauge_history_block
+    viol = {}
+    spec = schemes()[desc["scheme"]][0]
+    n = gauge_history_block(desc, seed, spec, viol, f"[imaginary time {desc['scheme']}]", times=("imag",), sigprefix="C10")
+    return {"nontrivial": n > 0, "counters": {"evolve_calls": n}, "outcome": f"gauge-history:{'viol' if viol else 'ok'}", "viol": list(viol.values()), "sample": {"desc": desc}}
+
+
 def run_case(desc, seed):
     k = desc["k"]
+    if k == "gauge-history":
+        return run_gauge_history(desc, seed)
     if k == "imag":
         return run_imag(desc, seed)
     if k == "thermalprop":
